@@ -17,6 +17,7 @@ import (
 
 	"verif/internal/cmpx"
 	"verif/internal/gen"
+	"verif/internal/ref"
 	"verif/internal/wk"
 )
 
@@ -209,6 +210,10 @@ func runC13(c *wk.Ctx) {
 		n = c.N(480, 8000)
 	}
 	env := &gen.Env{}
+	if c.Mine(0) {
+		c.Begin(0, "valid and invalid struct values validated by 8 goroutines")
+		c13MixedVerdicts(c)
+	}
 	c.Cases(n, func(idx int64, r *wk.Rand) {
 		g := 2 + r.Intn(15)
 		switch idx % 10 {
@@ -730,3 +735,65 @@ func fatalSiteOf(out string) string {
 }
 
 func init() { register("C13", runC13) }
+
+// c13MixedVerdicts: one struct-mapped object with presence rules; 8 goroutines validate and serialize values that
+// must be accepted and values that must be rejected (a field out of bounds, a broken rule), all mixed. What a call
+// returns in isolation is stated by the reference interpreter here, not by an earlier call of the same process, so
+// state that leaks from one call into the next shows even if it also leaks into "isolated" calls.
+func c13MixedVerdicts(c *wk.Ctx) {
+	intT := func() *gen.Shape { return &gen.Shape{Kind: gen.KInt, Min: p64(0), Max: p64(100)} }
+	shape := &gen.Shape{Kind: gen.KObject, ID: "Mixed", Struct: "P10", Props: []*gen.Prop{
+		{Name: "a", T: intT(), ReqIfNot: []string{"b"}},
+		{Name: "b", T: intT(), Conflicts: []string{"c"}},
+		{Name: "c", T: intT()}}}
+	env := &gen.Env{}
+	t, ok, _ := buildGuarded(shape)
+	if !ok {
+		c.Violation("C13:directed-shape-not-built", "the hand-written struct-mapped object could not be built", nil)
+		return
+	}
+	i64 := func(v int64) *int64 { return &v }
+	natives := []gen.P10{
+		{A: i64(1)}, {B: i64(2)}, {A: i64(1), B: i64(2)}, {A: i64(1), C: i64(3)}, {}, {C: i64(3)}, {B: i64(2), C: i64(3)},
+		{A: i64(101), B: i64(2)}, {A: i64(1), B: i64(101)}, {A: i64(101), C: i64(3)}, {B: i64(2), C: i64(101)}, {A: i64(-1), B: i64(2), C: i64(3)}}
+	want := make([]bool, len(natives))
+	for i, n := range natives {
+		want[i] = ref.Check(shape, ref.Normalize(shape, n, env), env) == ""
+	}
+	const G, rounds = 8, 4000
+	var ready, wrong atomic.Int32
+	var first atomic.Value
+	var wg sync.WaitGroup
+	for g := 0; g < G; g++ {
+		wg.Add(1)
+		go func(g int) {
+			defer wg.Done()
+			defer func() {
+				if p := recover(); p != nil {
+					wrong.Add(1)
+					first.CompareAndSwap(nil, fmt.Sprintf("panic: %v", p))
+				}
+			}()
+			ready.Add(1)
+			for ready.Load() < G {
+			}
+			for k := 0; k < rounds; k++ {
+				i := (k*7 + g*5) % len(natives)
+				verr := t.Validate(natives[i])
+				_, serr := t.Serialize(natives[i])
+				if (verr == nil) != want[i] || (serr == nil) != want[i] {
+					wrong.Add(1)
+					first.CompareAndSwap(nil, fmt.Sprintf("value #%d %s: must be accepted: %v; Validate: %v; Serialize: %v", i, cmpx.Canon(natives[i]), want[i], verr, serr))
+				}
+			}
+		}(g)
+	}
+	wg.Wait()
+	c.Count("mixed_verdict_rounds")
+	c.CountN("concurrent_calls", int64(2*G*rounds))
+	c.Eval(wk.Hash64("mixed-verdicts"), true)
+	if wrong.Load() > 0 {
+		c.Violation("C13:differs-from-isolated:mixed-valid-and-invalid-struct-values", fmt.Sprintf("%d of %d concurrent Validate / Serialize calls on one struct-mapped object returned another verdict than the value has; first: %v", wrong.Load(), 2*G*rounds, first.Load()),
+			map[string]any{"schema": shape.Describe()})
+	}
+}
